@@ -20,7 +20,6 @@ import (
 
 var errInvalidPrefix = errors.New("route: prefix must not be empty")
 var errInvalidTarget = errors.New("route: target must not be empty")
-var errNoMatch = errors.New("route: no target match")
 
 // table stores the active routing table. Must never be nil.
 var table atomic.Value
@@ -203,12 +202,19 @@ func (t Table) weighRoute(d *RouteDef) error {
 		return errInvalidPrefix
 	}
 
+	// A weight command which matches nothing changes nothing. It must not
+	// be an error: the command usually comes from the manual overrides and
+	// names a service or tag whose instances can all be unhealthy or gone at
+	// some point in time. Failing here rejects the whole table, which keeps
+	// the previous table - including the targets which just became
+	// unhealthy - active until the command matches again.
 	if t[host] == nil || t[host].find(path) == nil {
-		return errNoMatch
+		log.Printf("[WARN] route: no route for %q. Ignoring 'route weight'", d.Src)
+		return nil
 	}
 
 	if n := t[host].find(path).setWeight(d.Service, d.Weight, d.Tags); n == 0 {
-		return errNoMatch
+		log.Printf("[WARN] route: no target match for 'route weight' on %q", d.Src)
 	}
 	return nil
 }
